@@ -128,10 +128,13 @@ def process_nodes_recursive(
             bg_decl = None
 
             for decl in valid_decls:
+                # The last declaration wins, unless an earlier one is !important
                 if decl.lower_name == "color":
-                    color_decl = decl
+                    if not (color_decl and color_decl.important and not decl.important):
+                        color_decl = decl
                 elif decl.lower_name == "background-color":
-                    bg_decl = decl
+                    if not (bg_decl and bg_decl.important and not decl.important):
+                        bg_decl = decl
 
             if color_decl:
                 raw_text_color = extract_color_from_decl(color_decl)
